@@ -398,6 +398,7 @@ def bfs_histories(step: StepFn, alphabet: Sequence[Any], depth: int, stats: Stat
                                               v0.get("signature")))
     stats.states += 1
     stats.executions += 1
+    states_before = stats.states  # (the cap below is about THIS search; `stats` may carry earlier searches of the same check)
     for lvl in range(1, depth + 1):
         cands = [h + (ev,) for h in frontier for ev in alphabet if enabled is None or enabled(h, ev)]
         if not cands:
@@ -447,7 +448,7 @@ def bfs_histories(step: StepFn, alphabet: Sequence[Any], depth: int, stats: Stat
             stats.sample({"scenario": scenario, "history": list(h)}, limit=8)
         frontier = nxt
         stats.notes["distinct_states"] = len(seen) if dedup else sum(len(v) for v in per_level.values())
-        if max_states is not None and stats.states > max_states and lvl < depth:
+        if max_states is not None and stats.states - states_before > max_states and lvl < depth:
             stats.caps.append(f"{scenario}: state cap {max_states} hit after level {lvl}; levels <= {lvl} complete")
             stats.exhaustive = False
             break
